@@ -1202,6 +1202,20 @@ impl ElementRaw {
     ///
     /// This method only applies to elements which contain character data, i.e. `element.content_type` == `CharacterData`,
     /// or elements with `element.content_type` == Mixed, but which only contain a single `CharacterData` item
+    // remove all content of this element without updating the caches in the model;
+    // this is used when the model discards its entire content and clears the caches afterward
+    pub(crate) fn remove_all_content(&mut self) {
+        for item in &self.content {
+            if let ElementContent::Element(sub_element) = item {
+                let mut sub_element_locked = sub_element.0.write();
+                sub_element_locked.remove_all_content();
+                sub_element_locked.parent = ElementOrModel::None;
+                sub_element_locked.file_membership.clear();
+            }
+        }
+        self.content.clear();
+    }
+
     pub(crate) fn set_character_data<T: Into<CharacterData>>(
         &mut self,
         value: T,
